@@ -24,7 +24,7 @@ def constants():
         c["cmd_" + m.name] = m.value
     c["sm_OUT"] = ec.SyncManager.OUT.value
     c["sm_IN"] = ec.SyncManager.IN.value
-    lo, hi = ec.EtherCat.terminal_addr_range
+    lo, hi = _default_addr_range(ec)
     c["addrLo"], c["addrHi"] = lo, hi
     c["ethertype"] = ec.EtherCat.ethertype
     try:
@@ -735,6 +735,13 @@ def regenerate_programs_xadd(ctx=None):
         tmp.write_text(txt)
         tmp.replace(f)
     return txt
+
+
+def _default_addr_range(ec):
+    """C25: the address range a master uses when none was configured, observed on a freshly constructed plain master
+    (wherever the library keeps the default: class attribute, instance attribute, constructor default)"""
+    lo, hi = ec.EtherCat("probe").terminal_addr_range
+    return int(lo), int(hi)
 
 
 if __name__ == "__main__":      # keep this block LAST: helpers appended above must be defined first
